@@ -7,6 +7,7 @@ rsync -a --delete --exclude .git --exclude out --exclude bin --exclude evidence 
 cd "$COPY" || exit 9
 for id in "$@"; do
   out=$(VERIF_ROOT="$COPY" VERIF_REPO="$WT" ./check "$id" --tier ${TIER:-quick} 2>&1); rc=$?
-  echo "$(basename "$WT") $id rc=$rc keys: $(echo "$out" | grep '^  \[' | sed 's/\].*/]/' | sort | uniq -c | tr '\n' ' ') $(echo "$out" | grep '^INCONCLUSIVE\|^HARNESS-BUG' | head -2 | tr '\n' ' ')"
+  echo "$(basename "$WT") $id rc=$rc keys: $(echo "$out" | grep '^  \[' | sed 's/\].*/]/' | sort | uniq -c | tr '\n' ' ') $(echo "$out" | grep '^INCONCLUSIVE\|^HARNESS-BUG' | head -2 | tr '\n' ' ') known: $(echo "$out" | grep -c '^KNOWN-FINDING')"
+  [ -n "${SEEDRUN_SAVE:-}" ] && echo "$out" > "$SEEDRUN_SAVE.$id.txt"
 done
 rm -rf "$COPY"
